@@ -2289,7 +2289,17 @@ static std::map<std::size_t, std::pair<std::wregex, std::wregex> > get_reflow_fo
             auto         &&index   = std::stoi(match[3].str());
             std::wregex  *p_wregex = (match[1].length() > 0) ? &regex_map[index].second
                                                      : &regex_map[index].first;
-            *p_wregex = match[4].str();
+
+            try
+            {
+               *p_wregex = match[4].str();
+            }
+            catch (const std::regex_error &e)
+            {
+               // output has started: diagnose and ignore the entry (an empty regex matches nothing)
+               LOG_FMT(LWARN, "%s: ignoring invalid regular expression for index %d: %s\n",
+                       options::cmt_reflow_fold_regex_file().c_str(), index, e.what());
+            }
 
             ++it_regex;
          }
